@@ -137,7 +137,25 @@ def run_bloom(ctx):
     ctx.checker_cmds.append("tlc MC_Bloom.cfg (every hash assignment over a 3-k-mer universe x 4 call sequences: NoFalseNegative, EmptySaysNo, CountsInserts); tlc MC_Bloom_replay.cfg -> rvh replay-bloom")
 
 
-MODULES = {"bpq": run_bpq, "segbuf": run_segbuf, "bloom": run_bloom}
+def run_naming(ctx):
+    """Trace_Naming.tla: ragc-common/src/stream_naming.rs against the naming rule of FormatOps.tla, dense + boundary + random ids."""
+    tp = os.path.join(ctx.work, "naming.ndjson")
+    _, out, _, _ = C.rvh(["trace-naming", "--out", tp, "--seed", str(ctx.seed), "--dense", "4200" if ctx.tier == "quick" else "70000"])
+    n = json.loads(out)["ids"]
+    evs = C.read_ndjson(tp)
+    acc, rej, st, gen = C.validate_trace("Trace_Naming", "Trace_Naming.cfg", [("naming", evs)], os.path.join(ctx.work, "tnaming"), timeout=1500)
+    ctx.evaluations += n
+    ctx.traces += n if acc else (rej[0]["index_in_case"] if rej else 0)
+    ctx.nontrivial += sum(1 for e in evs if e["id"] >= 64)       # at least two digits
+    ctx.states += st
+    ctx.transitions += gen
+    ctx.sample({"naming_event": evs[4100]})
+    for r in rej:
+        ctx.violation("naming_id%s" % r["event"].get("id"), {"kind": "TRACE-Naming", "sig": {"module": "Naming", "kind": "trace"}, "rejected": {k: r[k] for k in ("event", "detail")}})
+    ctx.checker_cmds.append("rvh trace-naming -> tlc Trace_Naming (B64Encode / SegStreamName of FormatOps on %d ids)" % n)
+
+
+MODULES = {"bpq": run_bpq, "segbuf": run_segbuf, "bloom": run_bloom, "naming": run_naming}
 
 
 def run(ctx):
